@@ -94,25 +94,25 @@ mod verif_kani_presolver {
         core::mem::forget(presolver); core::mem::forget(out); core::mem::forget(cones);
     }
 
-    // Bound of the two harnesses (measured): every conditional `push` leaves the length of `cones_new` symbolic, and CBMC then
-    // explores the reallocation path of each later push; two of those nested (a nonnegative cone among the first two of three)
-    // exhausts 60 GB.  Hence: all lists of length <= 2, and lists of length 3 whose first two cones are not nonnegative.
+    // Bounds (all measured).  One list shape per harness: two checks in one harness share the heap and CBMC runs out of 60 GB.
+    // A symbolic cone kind drags the Vec clone of GenPowerConeT (symbolic allocation size) into every `cone.clone()`, and a
+    // conditional `push` leaves the length of `cones_new` symbolic, after which every later push explores its reallocation
+    // path: either of these twice before the third cone exhausts 60 GB.  Hence: every list of length 1 and 2 over the four
+    // kinds, and lists of length 3 whose first two cones are of a concrete kind other than nonnegative (each such kind once in
+    // each position), the third cone of any kind.  All dimensions and all markers are symbolic throughout.
     #[kani::proof]
     #[kani::unwind(11)]
-    fn reduce_cones_matches_spec_len_le2() {
-        check_on::<0>([]);
-        check_on([any_cone()]);
-        check_on([any_cone(), any_cone()]);
-    }
-
-    fn any_other_cone() -> SupportedConeT<f64> {
-        let tag: u8 = kani::any();
-        kani::assume(1 <= tag && tag < 4);
-        cone_of(tag)
-    }
+    fn reduce_cones_matches_spec_len1() { check_on([any_cone()]); }
     #[kani::proof]
     #[kani::unwind(11)]
-    fn reduce_cones_matches_spec_len3_nn_last() {
-        check_on([cone_of(2), cone_of(1), any_cone()]);
-    }
+    fn reduce_cones_matches_spec_len2() { check_on([any_cone(), any_cone()]); }
+    #[kani::proof]
+    #[kani::unwind(11)]
+    fn reduce_cones_matches_spec_len3_soc_zero_any() { check_on([cone_of(2), cone_of(1), any_cone()]); }
+    #[kani::proof]
+    #[kani::unwind(11)]
+    fn reduce_cones_matches_spec_len3_exp_soc_any() { check_on([cone_of(3), cone_of(2), any_cone()]); }
+    #[kani::proof]
+    #[kani::unwind(11)]
+    fn reduce_cones_matches_spec_len3_zero_exp_any() { check_on([cone_of(1), cone_of(3), any_cone()]); }
 }
